@@ -110,19 +110,29 @@ func settle(db *leveldb.DB, stor *vstor.Stor) string {
 	}
 }
 
-// liveTablesPresent: every table of the current version is on storage (must hold at any time).
+// liveTablesPresent: every table of the current version is on storage (must hold at any time). Background
+// compactions may install a new version between the version dump and the listing, so the listing is only
+// judged against a version that was current both before and after it was taken.
 func liveTablesPresent(db *leveldb.DB, stor *vstor.Stor) string {
-	ver := leveldb.VerifDumpVersion(db)
-	have := map[int64]bool{}
-	for _, fd := range stor.ListAll() {
-		if fd.Type == storage.TypeTable {
-			have[fd.Num] = true
+	for try := 0; try < 200; try++ {
+		id1 := leveldb.VerifVersionID(db)
+		ver := leveldb.VerifDumpVersion(db)
+		have := map[int64]bool{}
+		for _, fd := range stor.ListAll() {
+			if fd.Type == storage.TypeTable {
+				have[fd.Num] = true
+			}
 		}
-	}
-	for _, t := range ver {
-		if !have[t.Num] {
-			return fmt.Sprintf("table %d of the current version is missing from storage", t.Num)
+		if leveldb.VerifVersionID(db) != id1 {
+			time.Sleep(200 * time.Microsecond)
+			continue
 		}
+		for _, t := range ver {
+			if !have[t.Num] {
+				return fmt.Sprintf("table %d of the current version is missing from storage", t.Num)
+			}
+		}
+		return ""
 	}
 	return ""
 }
